@@ -60,6 +60,8 @@ type Op struct {
 	// message in the same inbox batch.  The fresh incarnation is started (it handles Started), finds
 	// the request in the replayed tail and stops: restarted, STARTED and stopped are all occurrences.
 	PillBehind int `json:"pill_behind,omitempty"`
+	// Resp: the temp actor's kind is "responses" (it begins like the kind of the engine's response processes)
+	Resp bool `json:"resp,omitempty"`
 	// send
 	Tgt string `json:"tgt,omitempty"` // nil never stopped foreign live
 	Snd int    `json:"snd,omitempty"` // 0 = no sender
@@ -467,7 +469,13 @@ func run(c Case, c09 bool) (feat map[string]int, err error) {
 			}
 		case "life":
 			h.tmpN++
-			id := fmt.Sprintf("tmp/%d", h.tmpN)
+			// the kind of the temp actor: "tmp", or a kind that begins like the engine's own "response" kind
+			tkind := "tmp"
+			if op.Resp {
+				tkind = "responses"
+				h.note("temp-actor-of-a-kind-that-begins-with-response")
+			}
+			id := fmt.Sprintf("%s/%d", tkind, h.tmpN)
 			pinged := make(chan struct{}, 4)
 			withChild := op.DupChild && !op.Crash
 			selfSend := op.SelfSend && !(op.Crash && op.PillBehind > 0)
@@ -496,7 +504,7 @@ func run(c Case, c09 bool) (feat map[string]int, err error) {
 			if die {
 				topts = append(topts, actor.WithMaxRestarts(0))
 			}
-			tp := e.SpawnFunc(f, "tmp", topts...)
+			tp := e.SpawnFunc(f, tkind, topts...)
 			if withChild {
 				// the child is started inside the parent's Started handler, i.e. before the parent's own event
 				h.add(exp{kind: "life", text: "started:" + id + "/kid/0"})
@@ -557,7 +565,7 @@ func run(c Case, c09 bool) (feat map[string]int, err error) {
 				crashing.Store(false)
 			}
 			if op.Dup && !gone {
-				e.SpawnFunc(f, "tmp", actor.WithID(fmt.Sprint(h.tmpN)))
+				e.SpawnFunc(f, tkind, actor.WithID(fmt.Sprint(h.tmpN)))
 				h.add(exp{kind: "life", text: "duplicate:" + id})
 				h.note("life-duplicate")
 			}
@@ -565,7 +573,7 @@ func run(c Case, c09 bool) (feat map[string]int, err error) {
 			} else if die {
 				e.Send(tp, "crash")
 				deadline := time.Now().Add(wait)
-				for e.Registry.GetPID("tmp", fmt.Sprint(h.tmpN)) != nil {
+				for e.Registry.GetPID(tkind, fmt.Sprint(h.tmpN)) != nil {
 					if time.Now().After(deadline) {
 						return nil, fmt.Errorf("%w: a temp actor without restart budget is still registered after it crashed", errInconclusive)
 					}
@@ -864,7 +872,7 @@ func (h *harness) compare(i int, log []rec, want []exp) error {
 			if (r.kind == "dl" || r.kind == "rm") && r.tgt != nil && h.departed[r.tgt.ID] {
 				continue // an event forwarded to a subscriber that left / that nobody can reach: allowed, bounded above
 			}
-			if r.kind == "life" && !strings.Contains(r.text, ":tmp/") && !strings.HasPrefix(r.text, "stopped:sub/") {
+			if r.kind == "life" && !strings.Contains(r.text, ":tmp/") && !strings.Contains(r.text, ":responses/") && !strings.HasPrefix(r.text, "stopped:sub/") {
 				continue // lifecycle of the harness's own actors (a subscriber that leaves is part of the history)
 			}
 			return r
@@ -944,6 +952,7 @@ func genCase(t *rapid.T, c09 bool) Case {
 			op.DupChild = rapid.IntRange(0, 2).Draw(t, "dupchild") == 0
 			op.SelfSend = rapid.IntRange(0, 2).Draw(t, "selfsend") == 0
 			op.Die = rapid.IntRange(0, 3).Draw(t, "die") == 0
+			op.Resp = rapid.IntRange(0, 3).Draw(t, "resp") == 0
 			if op.Crash {
 				op.PillBehind = rapid.SampledFrom([]int{0, 0, 1, 2}).Draw(t, "pillbehind")
 			}
